@@ -12,6 +12,11 @@
 int
 main(int argc, String *argv)
 {
+	int	rc;
+
 	osFixCmdLine(&argc, &argv);
-	return compCmd(argc, argv);
+	rc = compCmd(argc, argv);
+
+	/* The status is the error count: keep 256 errors from looking like success. */
+	return (rc < 0 || rc > 255) ? 255 : rc;
 }
